@@ -155,3 +155,39 @@ pub fn generate(tape: &[u8]) -> LimitProgram {
         LimitProgram { src: s, need, kind: "loop", route: rname, form: lname, wrappers: (wa_name, wb_name), is_async }
     }
 }
+
+/// Recursion that nests activations WITHOUT calling a user-defined function at any level: a string
+/// that evaluates itself (direct / indirect eval), and chains of generators built iteratively and
+/// resumed once (each level re-enters the VM through the native `next` only). The recursion limit
+/// has to stop these as well; the function-call check alone does not see them.
+pub const FRAMELESS: &[&str] = &["direct-eval-self", "indirect-eval-self", "yield-star-chain", "for-of-chain", "spread-chain", "eval-in-generator-chain"];
+
+pub fn generate_frameless(tape: &[u8]) -> LimitProgram {
+    let mut t = Tape::new(tape);
+    let form = FRAMELESS[t.below(FRAMELESS.len())];
+    let (wa_name, wa) = WRAPPERS[t.below(WRAPPERS.len())];
+    let (wb_name, wb) = WRAPPERS[t.below(WRAPPERS.len())];
+    let need = [3u64, 6, 12, 25, 40, 90][t.below(6)];
+    let mut s = String::from("var count = 0, depth = 0;\n");
+    match form {
+        "direct-eval-self" | "indirect-eval-self" => {
+            let call = if form == "direct-eval-self" { "eval(s);" } else { "(0, eval)(s);" };
+            let inner = wa.replace('X', call);
+            s.push_str(&format!("var s = \"depth++; if (depth < {need}) {{ {inner} }} print('rec end');\";\n"));
+            s.push_str(&wb.replace('X', call));
+        }
+        _ => {
+            let body = match form {
+                "yield-star-chain" => "yield* inner;",
+                "for-of-chain" => "for (var x of inner) yield x;",
+                "spread-chain" => "yield [...inner].length;",
+                _ => "yield eval('inner.next().value');",
+            };
+            let inner = wa.replace('X', body);
+            s.push_str(&format!("function* leaf() {{ yield 1; }}\nfunction* wrap(inner) {{ depth++; {inner} print('rec end'); }}\nvar it = leaf();\nfor (var i = 0; i < {}; i++) it = wrap(it);\n", need - 1));
+            s.push_str(&wb.replace('X', "it.next();"));
+        }
+    }
+    s.push_str("\nprint('after-sync');\n");
+    LimitProgram { src: s, need, kind: "recursion", route: "frameless", form, wrappers: (wa_name, wb_name), is_async: false }
+}
